@@ -563,14 +563,27 @@ class _Run(object):
     special = bool(flags & (cb.OFPFF_EMERG | cb.OFPFF_CHECK_OVERLAP)) and known_cmd and not is_del
     bogus = bkind not in ("none", "live")
     uncertain = known_cmd and not is_del and (bool(errs) or bool(maybe) or bogus)
-    keep = uncertain and cmd != cb.OFPFC_ADD and (special or op.get("keep_cmd", False))
+    # "target": the flow-mod describes the k-th entry that is certainly in the table (its match and priority), so that an
+    # ADD replaces it and a MODIFY / MODIFY_STRICT hits it.  Only honoured for an action list that OF 1.0 obliges the switch
+    # to refuse (an unknown / vendor action type and nothing else a switch may object to); what is in the table afterwards
+    # is treated as unknown, as for every flow-mod a switch may refuse.
+    match_raw = None
+    if op.get("target") is not None and uncertain and not special and errs and not maybe:
+      cand = [f for f in sh.flows if not f.maybe]
+      if cand:
+        f = cand[op["target"] % len(cand)]
+        match_raw, prio = f.match_raw, f.priority
+    on_entry = match_raw is not None
+    keep = uncertain and cmd != cb.OFPFC_ADD and (special or on_entry or op.get("keep_cmd", False))
     if uncertain:
       if not keep:
         cmd = cb.OFPFC_ADD                    # the shadow only knows uncertain ADDs ...
-      if errs or maybe:
+      if (errs or maybe) and not on_entry:
         mi = M_NEVER                          # such a flow must never be hit by a frame of this history
+    if match_raw is None:
+      match_raw = MATCHES[mi]
     acts_raw = _enc_actions(acts)
-    raw = cb.flow_mod(x, MATCHES[mi], cookie=op.get("cookie", 0), command=cmd, idle_timeout=op.get("idle", 0),
+    raw = cb.flow_mod(x, match_raw, cookie=op.get("cookie", 0), command=cmd, idle_timeout=op.get("idle", 0),
                       hard_timeout=op.get("hard", 0), priority=prio, buffer_id=bid, out_port=out_port, flags=flags, actions=acts_raw)
     if not known_cmd:
       # (an unknown action type in the same message may be what the switch reports instead)
@@ -592,7 +605,7 @@ class _Run(object):
     elif bogus:
       cls, root = "flow_mod/buffer-%s" % bkind, "buffer-not-outstanding"
     elif errs and not is_del:
-      cls = "flow_mod/bad-action"
+      cls = "flow_mod/bad-action-on-entry" if on_entry else "flow_mod/bad-action"
     elif special:
       cls = "flow_mod/emerg-or-overlap"
     elif is_del:
@@ -614,8 +627,10 @@ class _Run(object):
       sh.table_known = False
       self.out.label("uncertain-modify")
     else:
-      sh.flow_mod(MATCHES[mi], cmd, prio, op.get("cookie", 0), op.get("idle", 0), op.get("hard", 0), flags, out_port, acts_raw,
+      sh.flow_mod(match_raw, cmd, prio, op.get("cookie", 0), op.get("idle", 0), op.get("hard", 0), flags, out_port, acts_raw,
                   maybe=uncertain and not special)
+    if on_entry:
+      self.out.label("bad-action-flow-mod-describes-entry:cmd%d" % cmd)
     if special and bkind != "none":
       self.out.label("refusable-flow-mod-with-buffer:cmd%d:%s" % (cmd, bkind))
     if stored is not None:
@@ -1251,8 +1266,57 @@ def _buffer_code_grid():
                         {"o": "flow_mod", "xid": 41, "m": 2, "cmd": 0, "buf": buf, "acts": [["out", 1, 0]]}]
 
 
+# a table whose entries output to physical and to reserved ports, singly and in pairs, plus one entry without actions
+# and one whose output port a switch may refuse (OFPP_LOCAL: kept as an entry that may or may not exist)
+_OUTPUT_WARMUP = [
+  {"o": "hello", "xid": 1},
+  {"o": "flow_mod", "xid": 2, "m": 1, "cmd": 0, "prio": 10, "cookie": 1, "acts": [["out", 2, 0]]},
+  {"o": "flow_mod", "xid": 3, "m": 2, "cmd": 0, "prio": 11, "cookie": 2, "acts": [["out", cb.OFPP_CONTROLLER, 32]]},
+  {"o": "flow_mod", "xid": 4, "m": 3, "cmd": 0, "prio": 12, "cookie": 3, "acts": [["out", cb.OFPP_FLOOD, 0]]},
+  {"o": "flow_mod", "xid": 5, "m": 4, "cmd": 0, "prio": 13, "cookie": 4, "acts": [["out", cb.OFPP_ALL, 0]]},
+  {"o": "flow_mod", "xid": 6, "m": 5, "cmd": 0, "prio": 14, "cookie": 5, "acts": [["out", cb.OFPP_IN_PORT, 0]]},
+  {"o": "flow_mod", "xid": 7, "m": 6, "cmd": 0, "prio": 15, "cookie": 6, "acts": [["out", 1, 0], ["out", cb.OFPP_CONTROLLER, 0xffff]]},
+  {"o": "flow_mod", "xid": 8, "m": 7, "cmd": 0, "prio": 16, "cookie": 7, "acts": [["out", 3, 0], ["out", cb.OFPP_FLOOD, 0]]},
+  {"o": "flow_mod", "xid": 9, "m": 0, "cmd": 0, "prio": 1, "cookie": 8, "acts": []},
+  {"o": "flow_mod", "xid": 10, "m": 0, "cmd": 0, "prio": 2, "cookie": 9, "acts": [["out", cb.OFPP_LOCAL, 0]]},
+  {"o": "barrier", "xid": 11},
+  {"o": "frame", "port": 0, "dst": 0, "src": 0, "len": 80},
+  {"o": "frame", "port": 1, "dst": 2, "src": 1, "len": 100},
+]
+
+RESERVED_PORTS = [cb.OFPP_IN_PORT, cb.OFPP_TABLE, cb.OFPP_NORMAL, cb.OFPP_FLOOD, cb.OFPP_ALL, cb.OFPP_CONTROLLER, cb.OFPP_LOCAL]
+_OUT_PORTS = [cb.OFPP_NONE, 1, 2, 3, 99, cb.OFPP_MAX, 0xff42, 0xfff7] + RESERVED_PORTS
+_BAD_ACTS = [[["bad", 12]], [["out", 1, 0], ["vendor", 0x2320]], [["bad", 0x7777], ["out", 2, 0]], [["out", cb.OFPP_FLOOD, 0], ["bad", 0xfffe]]]
+
+
+def _out_port_grid(tier):
+  """the out_port restriction of flow / aggregate statistics requests and of DELETE / DELETE_STRICT, for every physical,
+  unknown and reserved port number, against a table whose entries output to physical and reserved ports"""
+  for out_port in _OUT_PORTS:
+    for t in (cb.OFPST_FLOW, cb.OFPST_AGGREGATE):
+      for m, table in ((0, 0xff), (0, 0), (6, 0xff), (3, 0)) if tier == "thorough" else ((0, 0xff), (6, 0)):
+        yield [{"o": "stats", "xid": 0x51, "t": t, "m": m, "table": table, "out_port": out_port}]
+    yield [{"o": "flow_mod", "xid": 0x52, "m": 0, "cmd": 3, "out_port": out_port, "acts": []}]
+    yield [{"o": "flow_mod", "xid": 0x53, "m": 6, "cmd": 4, "prio": 15, "out_port": out_port, "acts": []}]
+    if tier == "thorough":
+      yield [{"o": "flow_mod", "xid": 0x54, "m": 1, "cmd": 3, "out_port": out_port, "acts": []}]
+      yield [{"o": "flow_mod", "xid": 0x55, "m": 7, "cmd": 4, "prio": 16, "out_port": out_port, "acts": [["out", 1, 0]]}]
+
+
+def _bad_action_on_entry_grid(tier):
+  """ADD / MODIFY / MODIFY_STRICT with an action type the switch cannot support, describing each entry of the table"""
+  for cmd in (0, 1, 2):
+    for target in range(8):
+      for acts in (_BAD_ACTS if tier == "thorough" else _BAD_ACTS[:2]):
+        yield [{"o": "flow_mod", "xid": 0x61, "m": 0, "cmd": cmd, "target": target, "cookie": 0x77, "acts": acts}]
+
+
 def _enum(tier):
   xids = [0, 1, 0x80000000, 0xffffffff]
+  for grid in (_out_port_grid, _bad_action_on_entry_grid):
+    for ops in grid(tier):
+      for seg in ([], [7, 3]) if tier == "thorough" else ([],):
+        yield {"max_buffers": 2, "miss_send_len": 128, "seg": seg, "ops": _OUTPUT_WARMUP + ops + _PROBES}
   for maxb, ops in _buffer_code_grid():
     yield {"max_buffers": maxb, "miss_send_len": 128, "seg": [], "ops": ops + _PROBES}
   for o in _refusal_grid():
@@ -1330,7 +1394,8 @@ def _s_op():
   flow_mod = _fd(o=J("flow_mod"), xid=x, m=st.integers(0, 7), cmd=st.sampled_from([0, 0, 0, 0, 1, 2, 3, 4, 5, 9, 0xffff]),
                  prio=st.sampled_from([0, 1, 100, 0x8000, 0xffff]), cookie=st.sampled_from([0, 1, 0xdeadbeef, 0xffffffffffffffff]),
                  idle=st.sampled_from([0, 0, 10, 0xffff]), hard=st.sampled_from([0, 0, 30]),
-                 flags=st.sampled_from([0] * 16 + [1, 1, 2, 4]), out_port=st.one_of(J(cb.OFPP_NONE), J(cb.OFPP_NONE), st.integers(1, N_PORTS)),
+                 flags=st.sampled_from([0] * 16 + [1, 1, 2, 4]),
+                 out_port=st.one_of(J(cb.OFPP_NONE), J(cb.OFPP_NONE), J(cb.OFPP_NONE), st.integers(1, N_PORTS), st.integers(1, N_PORTS), st.sampled_from(RESERVED_PORTS)),
                  acts=_s_acts(), buf=_s_buf())
   good_acts = st.lists(st.one_of(st.integers(1, N_PORTS).map(lambda p: ["out", p, 0]), st.integers(1, N_PORTS).map(lambda p: ["out", p, 0]),
                                  st.sampled_from([["out", cb.OFPP_FLOOD, 0], ["out", cb.OFPP_ALL, 0], ["out", cb.OFPP_IN_PORT, 0],
@@ -1350,6 +1415,9 @@ def _s_op():
     _fd(o=J("stats"), xid=x, t=J(cb.OFPST_DESC), flags=st.sampled_from([0, 0, 1, 0xffff])),
     _fd(o=J("stats"), xid=x, t=st.sampled_from([cb.OFPST_FLOW, cb.OFPST_AGGREGATE]), m=st.integers(0, 8),
         table=st.sampled_from([0xff, 0xff, 0xff, 0, 0, 1, 0xfe, 77]), out_port=st.one_of(J(cb.OFPP_NONE), J(cb.OFPP_NONE), J(cb.OFPP_NONE), st.integers(1, N_PORTS), J(99))),
+    # restricted to a reserved (or out-of-range) port number: only the entries with an output action to exactly that port
+    _fd(o=J("stats"), xid=x, t=st.sampled_from([cb.OFPST_FLOW, cb.OFPST_AGGREGATE]), m=st.sampled_from([0, 0, 0, 1, 3, 6]),
+        table=st.sampled_from([0xff, 0xff, 0]), out_port=st.sampled_from(RESERVED_PORTS + [cb.OFPP_FLOOD, cb.OFPP_ALL, cb.OFPP_CONTROLLER, cb.OFPP_IN_PORT, cb.OFPP_MAX, 0xff42])),
     _fd(o=J("stats"), xid=x, t=st.sampled_from([cb.OFPST_FLOW, cb.OFPST_AGGREGATE]), m=J(0), table=J(0xff), out_port=J(cb.OFPP_NONE)),
     _fd(o=J("stats"), xid=x, t=st.sampled_from([cb.OFPST_FLOW, cb.OFPST_AGGREGATE]), m=J(0), table=st.sampled_from([0, 0xff]), out_port=J(cb.OFPP_NONE)),
     _fd(o=J("stats"), xid=x, t=J(cb.OFPST_TABLE)),
@@ -1367,6 +1435,12 @@ def _s_op():
                      out_port=J(cb.OFPP_NONE), acts=good_acts, buf=anybuf)
   flow_keep = _fd(o=J("flow_mod"), xid=x, m=st.integers(0, 7), cmd=st.sampled_from([1, 2]), prio=st.sampled_from([0, 1, 100, 0x8000]),
                   cookie=J(0), idle=J(0), hard=J(0), flags=J(0), out_port=J(cb.OFPP_NONE), acts=_s_acts(), buf=anybuf, keep_cmd=J(True))
+  bad_one = st.sampled_from([["bad", 12], ["bad", 0x7777], ["bad", 0xfffe], ["vendor", 0x2320], ["vendor", 0]])
+  bad_acts = st.tuples(good_acts, bad_one, st.integers(0, 3)).map(lambda t: t[0][:t[2] % (len(t[0]) + 1)] + [t[1]] + t[0][t[2] % (len(t[0]) + 1):])
+  # an unsupported action type in a flow-mod that describes an entry of the table (falls back to a match no frame has when the table is empty)
+  flow_bad_on_entry = _fd(o=J("flow_mod"), xid=x, m=st.integers(0, 7), cmd=st.sampled_from([0, 1, 1, 2, 2]), prio=st.sampled_from([0, 1, 100, 0x8000]),
+                          cookie=st.sampled_from([0, 1]), idle=J(0), hard=J(0), flags=J(0), out_port=J(cb.OFPP_NONE), acts=bad_acts,
+                          buf=st.one_of(st.none(), st.none(), st.none(), anybuf), target=st.integers(0, 7))
   whats = ["features", "get_config", "barrier", "set_config", "port_mod", "qgc", "vendor", "flow_mod", "packet_out", "stats_header",
            "stats_desc", "stats_table", "stats_flow", "stats_aggregate", "stats_port", "stats_queue", "stats_vendor",
            "stats_flow", "stats_aggregate", "stats_port", "stats_queue",
@@ -1375,7 +1449,7 @@ def _s_op():
                fill=st.sampled_from([0, 0, 0xff, 1]), m=st.integers(0, 7), port=st.sampled_from([cb.OFPP_NONE, 1, 2]))
   # Hypothesis flattens nested one_of()s, so the mix is drawn explicitly: (weight, strategy)
   table = [(10, simple), (14, barrier), (4, set_config), (7, port_mod), (14, flow_ok), (6, pout_ok), (8, flow_mod), (1, wipe),
-           (8, packet_out), (18, stats), (16, frame), (4, flow_refused), (2, flow_keep), (7, badlen)]
+           (8, packet_out), (18, stats), (16, frame), (4, flow_refused), (2, flow_keep), (7, badlen), (3, flow_bad_on_entry)]
   kinds = []
   for i, (wgt, _) in enumerate(table):
     kinds += [i] * wgt
